@@ -395,7 +395,7 @@ class Sym:
                     self._assign(elt, val[1][i], env, fr, None)
                 else:
                     self._assign(elt, ('index', val, lit(i)), env, fr, None)
-        elif isinstance(target, ast.Subscript) and isinstance(target.value, ast.Name):
+        elif isinstance(target, ast.Subscript) and isinstance(target.value, ast.Name) and not (env.get(target.value.id) == ('self',)):
             cur = env.get(target.value.id)
             k = self.ev(target.slice, env, fr)
             if cur is not None and cur[0] == 'dict':
@@ -407,6 +407,20 @@ class Sym:
         elif isinstance(target, ast.Attribute):
             self._field_stores = getattr(self, '_field_stores', [])
             self._field_stores.append((fr.ctx, target, val))
+            if isinstance(target.value, ast.Name) and env.get(target.value.id) == ('self',) and fr.depth == 0:
+                # the attribute doubles as a pseudo-variable so that `self.x = {}; for ..: self.x[k] = v` is summarised
+                env.set(f'self.{target.attr}', val)
+                self._attr_nodes = getattr(self, '_attr_nodes', {})
+                self._attr_nodes[f'self.{target.attr}'] = (fr.ctx, target)
+        elif isinstance(target, ast.Subscript) and isinstance(target.value, ast.Attribute) and isinstance(target.value.value, ast.Name) \
+                and env.get(target.value.value.id) == ('self',):
+            name = f'self.{target.value.attr}'
+            cur = env.get(name)
+            k = self.ev(target.slice, env, fr)
+            if cur is not None and cur[0] == 'dict':
+                env.setdeep(name, ('dict', cur[1] + ((k, val),)))
+            elif cur is not None and cur[0] == 'acc':
+                self._emit(env, name, ('kv', k, val))
 
     def _emit(self, env, name, what):
         acc = env.get(name)
@@ -432,6 +446,13 @@ class Sym:
             if cur is not None and m in ('update', 'extend', '__ior__') and len(node.args) == 1:
                 env.setdeep(name, ('call', m, (cur, self.ev(node.args[0], env, fr))))
                 return
+        if isinstance(node, ast.Call) and isinstance(node.func, ast.Attribute) and node.func.attr in ('append', 'add') and len(node.args) == 1 \
+                and isinstance(node.func.value, ast.Attribute) and isinstance(node.func.value.value, ast.Name) and env.get(node.func.value.value.id) == ('self',):
+            name = f'self.{node.func.value.attr}'
+            cur = env.get(name)
+            if cur is not None and cur[0] == 'acc':
+                self._emit(env, name, ('elem', self.ev(node.args[0], env, fr)))
+                return
         # other expression statements: evaluate so that attribute stores inside inlined callees are recorded
         if isinstance(node, (ast.Call, ast.Await)):
             self.ev(node, env, fr)
@@ -448,6 +469,12 @@ class Sym:
                 mutated.add(n.func.value.id)
             if isinstance(n, ast.Subscript) and isinstance(n.ctx, ast.Store) and isinstance(n.value, ast.Name):
                 mutated.add(n.value.id)
+            if isinstance(n, ast.Subscript) and isinstance(n.ctx, ast.Store) and isinstance(n.value, ast.Attribute) and isinstance(n.value.value, ast.Name) \
+                    and env.get(n.value.value.id) == ('self',):
+                mutated.add(f'self.{n.value.attr}')
+            if isinstance(n, ast.Call) and isinstance(n.func, ast.Attribute) and n.func.attr in ('append', 'add') and isinstance(n.func.value, ast.Attribute) \
+                    and isinstance(n.func.value.value, ast.Name) and env.get(n.func.value.value.id) == ('self',):
+                mutated.add(f'self.{n.func.value.attr}')
         target_names = {n.id for n in ast.walk(st.target) if isinstance(n, ast.Name)}
         for b in st.body + st.orelse:
             for n in ast.walk(b):
@@ -480,7 +507,7 @@ class Sym:
             if not ok or acc is None or acc[0] != 'acc':
                 env.setdeep(name, opaque(f'<loop-built {name}>'))
                 continue
-            ems = acc[2]
+            ems = self._fold_emissions(list(acc[2]))
             if len(ems) == 0:
                 continue
             if len(ems) != 1:
@@ -492,6 +519,9 @@ class Sym:
                 env.setdeep(name, ('map', varnames, what[1], seq, g))
             else:
                 env.setdeep(name, ('mapdict', varnames, what[1], what[2], seq, g))
+            if name.startswith('self.') and name in getattr(self, '_attr_nodes', {}):
+                c0, tgt = self._attr_nodes[name]
+                self._field_stores.append((c0, tgt, env.get(name)))
         for name in mutated - set(accs):
             if env.has(name) and name not in target_names:
                 env.setdeep(name, opaque(f'<loop-mutated {name}>'))
@@ -499,6 +529,32 @@ class Sym:
             env.setdeep(name, opaque(f'<loop-assigned {name}>'))
         for v in target_names:
             env.set(v, opaque(f'<loop-var {v}>'))
+
+    def _fold_emissions(self, ems):
+        """Two emissions under complementary guards (if c: acc.append(x) else: acc.append(y)) are one emission cond(c, x, y)."""
+        changed = True
+        while changed and len(ems) > 1:
+            changed = False
+            for i in range(len(ems)):
+                for j in range(i + 1, len(ems)):
+                    (g1, w1), (g2, w2) = ems[i], ems[j]
+                    if len(g1) != len(g2) or not g1 or g1[:-1] != g2[:-1] or w1[0] != w2[0]:
+                        continue
+                    a, b = g1[-1], g2[-1]
+                    if self._neg(a) == b or self._neg(b) == a:
+                        if w1[0] == 'elem':
+                            merged = ('elem', ('cond', a, w1[1], w2[1]))
+                        elif w1[1] == w2[1]:
+                            merged = ('kv', w1[1], ('cond', a, w1[2], w2[2]))
+                        else:
+                            continue
+                        ems = [e for k, e in enumerate(ems) if k not in (i, j)]
+                        ems.insert(i, (g1[:-1], merged))
+                        changed = True
+                        break
+                if changed:
+                    break
+        return ems
 
     def _target_order(self, target) -> List[str]:
         return [n.id for n in ast.walk(target) if isinstance(n, ast.Name)]
@@ -527,15 +583,33 @@ class Sym:
                 body_kind = self._block_kind(st.body)
                 else_kind = self._block_kind(st.orelse) if st.orelse else 'fall'
                 if body_kind in ('cont', 'bottom') and else_kind == 'fall':
+                    if body_kind == 'cont' and len(st.body) > 1:
+                        # statements before the `continue` run under c (their emissions must not be lost)
+                        n0 = len(guard)
+                        guard.append(c)
+                        ok = self._exec_loop_body(st.body[:-1], env.copy() if False else env, fr)
+                        del guard[n0:]
+                        if not ok:
+                            return False
+                    # a raising branch contributes no guard: terms describe the non-raising executions (as for whole functions)
                     if st.orelse:
-                        guard.append(self._neg(c))
+                        if body_kind == 'cont':
+                            guard.append(self._neg(c))
                         if not self._exec_loop_body(st.orelse, env, fr):
                             return False
-                    else:
+                    elif body_kind == 'cont':
                         guard.append(self._neg(c))
                     continue
                 if body_kind == 'fall' and else_kind in ('cont', 'bottom'):
-                    guard.append(c)
+                    if else_kind == 'cont' and len(st.orelse) > 1:
+                        n0 = len(guard)
+                        guard.append(self._neg(c))
+                        ok = self._exec_loop_body(st.orelse[:-1], env, fr)
+                        del guard[n0:]
+                        if not ok:
+                            return False
+                    if else_kind == 'cont':
+                        guard.append(c)
                     if not self._exec_loop_body(st.body, env, fr):
                         return False
                     continue
@@ -751,13 +825,15 @@ class Sym:
             return ('call', '/', (a, b))
         if isinstance(node.op, ast.Mod) and a[0] == 'lit' and isinstance(a[1], str):
             args = b[1] if b[0] == 'tuple' else (b,)
-            pieces = a[1].split('%s')
-            if a[1].count('%') == a[1].count('%s') and len(pieces) == len(args) + 1:
+            import re as _re
+            specs = _re.findall(r'%[sr]', a[1])
+            pieces = _re.split(r'%[sr]', a[1])
+            if a[1].count('%') == len(specs) and len(pieces) == len(args) + 1:
                 parts = []
                 for i, pc in enumerate(pieces):
                     parts.append(lit(pc))
                     if i < len(args):
-                        parts.append(('str', args[i]))
+                        parts.append(('str', args[i]) if specs[i] == '%s' else ('repr', args[i]))
                 return ('cat', tuple(parts))
             return ('call', '%', (a, b))
         return ('call', type(node.op).__name__, (a, b))
@@ -888,6 +964,10 @@ class Sym:
 
     # ---- attributes
     def _ev_Attribute(self, node, env, fr):
+        if isinstance(node.value, ast.Name) and fr.depth == 0 and env.get(node.value.id) == ('self',):
+            pv = env.get(f'self.{node.attr}')
+            if pv is not None and pv[0] in ('map', 'mapdict', 'acc', 'dict', 'list'):
+                return pv
         base = self.ev(node.value, env, fr)
         name = node.attr
         # module attribute
@@ -1366,11 +1446,57 @@ def _norm1(t):
         if t[2][0] == 'lit' and t[3][0] == 'lit' and t[1] in ('Is', 'Eq', 'IsNot', 'NotEq'):
             same = t[2][1] == t[3][1] and type(t[2][1]) is type(t[3][1])
             return ('lit', same if t[1] in ('Is', 'Eq') else not same)
+        # len(x) == 0  ->  not x ;  len(x) > 0 / != 0 -> x   (emptiness of a sized container)
+        if t[2][0] == 'call' and t[2][1] == 'len' and t[3] == ('lit', 0):
+            if t[1] == 'Eq':
+                return _norm1(('not', t[2][2][0]))
+            if t[1] in ('Gt', 'NotEq'):
+                return t[2][2][0]
         return t
+    if k == 'call' and t[1] == 'len' and len(t[2]) == 1 and t[2][0][0] == 'lit' and isinstance(t[2][0][1], str):
+        return ('lit', len(t[2][0][1]))
+    if k == 'call' and t[1] == 'USub' and len(t[2]) == 1 and t[2][0][0] == 'lit' and isinstance(t[2][0][1], (int, float)):
+        return ('lit', -t[2][0][1])
     if k == 'map':
         vars_, body, seq, guard = t[1], t[2], t[3], t[4]
         if guard is None and len(vars_) == 1 and body == vars_[0]:
             return seq
+        # (b) map over a map: compose (a generator consumed by a filtering comprehension)
+        if len(vars_) == 1 and seq[0] == 'map':
+            inner_vars, inner_body, inner_seq, inner_guard = seq[1], seq[2], seq[3], seq[4]
+            sub = {vars_[0]: inner_body}
+            nb = _subst_vars(body, sub)
+            ng = _subst_vars(guard, sub) if guard is not None else None
+            gs = [g for g in (inner_guard, ng) if g is not None]
+            g2 = None if not gs else (gs[0] if len(gs) == 1 else _norm1(('and', tuple(gs))))
+            return _norm1(('map', inner_vars, nb, inner_seq, g2))
+        # (c) enumerate whose index is not used
+        if seq[0] == 'call' and seq[1] in ('enumerate', 'builtins.enumerate') and len(seq[2]) == 1 and len(vars_) >= 2:
+            idx = vars_[0]
+            if not _mentions(body, idx) and (guard is None or not _mentions(guard, idx)):
+                ren = {vars_[i]: vars_[i - 1] for i in range(1, len(vars_))}
+                nb, ng = body, guard
+                for old_v in vars_[1:]:
+                    nb = _subst_vars(nb, {old_v: ren[old_v]})
+                    ng = _subst_vars(ng, {old_v: ren[old_v]}) if ng is not None else None
+                return _norm1(('map', tuple(vars_[:-1]), nb, seq[2][0], ng))
+        # (a) sorted keys + indexing == sorted items
+        r = _keys_to_items(t)
+        if r is not None:
+            return r
+        return t
+    if k == 'mapdict':
+        vars_, kb, vb, seq, guard = t[1], t[2], t[3], t[4], t[5]
+        if seq[0] == 'call' and seq[1] in ('enumerate', 'builtins.enumerate') and len(seq[2]) == 1 and len(vars_) >= 2:
+            idx = vars_[0]
+            if not _mentions(kb, idx) and not _mentions(vb, idx) and (guard is None or not _mentions(guard, idx)):
+                ren = {vars_[i]: vars_[i - 1] for i in range(1, len(vars_))}
+                nk, nv, ng = kb, vb, guard
+                for old_v in vars_[1:]:
+                    nk = _subst_vars(nk, {old_v: ren[old_v]})
+                    nv = _subst_vars(nv, {old_v: ren[old_v]})
+                    ng = _subst_vars(ng, {old_v: ren[old_v]}) if ng is not None else None
+                return ('mapdict', tuple(vars_[:-1]), nk, nv, seq[2][0], ng)
         return t
     if k == 'union':
         parts = []
@@ -1386,6 +1512,71 @@ def _norm1(t):
 
 
 _BINDERS = {'map': (1, (2, 4)), 'mapdict': (1, (2, 3, 5)), 'lam': (1, (2,))}
+
+
+def _mentions(t, v) -> bool:
+    return any(x is v or x == v for x in dag_nodes(t)) if isinstance(t, tuple) else False
+
+
+def _subst_vars(t, mapping):
+    """Replace bound-variable leaves (exact match) by terms; DAG-memoised."""
+    if t is None:
+        return None
+    memo = {}
+
+    def go(x):
+        if not isinstance(x, tuple):
+            return x
+        i = id(x)
+        if i in memo:
+            return memo[i]
+        if len(x) == 2 and x[0] == 'var' and x in mapping:
+            r = mapping[x]
+        else:
+            r = tuple(go(y) for y in x)
+            if all(a is b for a, b in zip(r, x)):
+                r = x
+        memo[i] = r
+        return r
+
+    return go(t)
+
+
+def _keys_to_items(t):
+    """map over sorted(D) [or sorted(keys(D))] whose body reads D[k]  ==  map over sorted(items(D)) with (k, v)."""
+    vars_, body, seq, guard = t[1], t[2], t[3], t[4]
+    if len(vars_) != 1 or seq[0] != 'sorted' or seq[2] != NONE_T:
+        return None
+    d = seq[1]
+    if d[0] == 'keys':
+        d = d[1]
+    if d[0] in ('items', 'values', 'call', 'list', 'tuple', 'map', 'sorted', 'lit'):
+        return None
+    kvar = vars_[0]
+    idx = ('index', d, kvar)
+    if not (_mentions(body, idx) or (guard is not None and _mentions(guard, idx))):
+        return None
+    name = kvar[1]
+    if not (isinstance(name, str) and name.startswith('b') and name.endswith('.0')):
+        return None
+    vvar = ('var', name[:-2] + '.1')
+    memo = {}
+
+    def go(x):
+        if not isinstance(x, tuple):
+            return x
+        if x == idx:
+            return vvar
+        i = id(x)
+        if i in memo:
+            return memo[i]
+        r = tuple(go(y) for y in x)
+        memo[i] = r
+        return r
+
+    nb = go(body)
+    ng = go(guard) if guard is not None else None
+    return ('map', (kvar, vvar), nb, ('sorted', ('items', d), NONE_T), ng)
 
 
 def _alpha(t):
